@@ -602,7 +602,11 @@ func (s *Server) serveListReposErr(q query.Q, qStr string, r *http.Request) (*Re
 		for _, b := range r.Repository.Branches {
 			var buf bytes.Buffer
 			if err := t.Execute(&buf, b); err != nil {
-				return nil, err
+				// A template that cannot be executed is repository metadata gone
+				// wrong; show the branch without a link (like formatResults does for
+				// file URLs) instead of failing the whole page.
+				log.Printf("commit url template: %v", err)
+				buf.Reset()
 			}
 			repo.Branches = append(repo.Branches,
 				Branch{
